@@ -215,6 +215,10 @@ func genApiExpect(r *h.Rand) h.Case {
 		{fmt.Sprintf(`{{range k, v := (apiSetOrLet("hq", %d) ? ls : li)}}{{end}}[{{hq}}]`, v), fmt.Sprintf("[%d]", v)},
 		{fmt.Sprintf(`{{if true}}{{ d := 0 }}{{range v := (apiLet("hq", %d) ? ls : li)}}{{end}}<{{hq}}>{{end}}[{{isset(hq)}}]`, v), fmt.Sprintf("<%d>[false]", v)},
 		{fmt.Sprintf(`{{if w := (apiLet("hq", %d) ? 0 : 1); w}}<{{hq}}>{{end}}[{{isset(hq)}}]`, v), fmt.Sprintf("<%d>[false]", v)},
+		// a variable that holds nil is declared all the same: SetOrLet rebinds it where it lives
+		{fmt.Sprintf(`{{ nx := nil }}{{if true}}{{ d := 0 }}{{ apiSetOrLet("nx", %d) }}{{end}}[{{nx}}]`, v), fmt.Sprintf("[%d]", v)},
+		{fmt.Sprintf(`{{ nx, ok := m["zz"] }}{{range li}}{{ apiSetOrLet("nx", %d) }}{{end}}[{{nx}}]`, v), fmt.Sprintf("[%d]", v)},
+		{fmt.Sprintf(`{{ nx := 1 }}{{if true}}{{ nx := nil }}{{ apiSetOrLet("nx", %d) }}<{{nx}}>{{end}}[{{nx}}]`, v), fmt.Sprintf("<%d>[1]", v)},
 		// SetOrLet: declares when only a global / default of that name exists, rebinds when a template variable exists
 		{fmt.Sprintf(`{{ d := 0 }}{{ apiSetOrLet("g", %d) }}[{{g}}]`, v), fmt.Sprintf("[%d]", v)},
 		{fmt.Sprintf(`{{ d := 0 }}{{ apiSetOrLet("len", %d) }}[{{len}}]`, v), fmt.Sprintf("[%d]", v)},
